@@ -53,6 +53,13 @@ func Main() {
 		hang, _ := strconv.Atoi(os.Args[8])
 		Worker(p, os.Args[3], shard, n, os.Args[6], time.Unix(0, dl), time.Duration(hang)*time.Second)
 	default:
+		if f := Commands[os.Args[1]]; f != nil {
+			os.Exit(f(os.Args[2:]))
+		}
 		os.Exit(2)
 	}
 }
+
+// Commands are extra sub-commands of the checker binary that property packages register for the
+// helper processes they start themselves (e.g. a call history run in a fresh process).
+var Commands = map[string]func(args []string) int{}
